@@ -190,6 +190,19 @@ pub fn run(ctx: &mut Ctx) {
             k += 1;
         }
     }
+    // the same text several times in a row inside one block (events that compare equal ignoring their position)
+    if ctx.shard == 0 {
+        for doc in [
+            "> stir and wait\n> stir and wait\n> stir and wait\n\nServe.\n", "mail a @ b @ b @ b\n", "a @ a @ a @ a", "x # x # x # x\n\nx # x", "wait ~ 5 ~ 5 ~ 5 ~ 5",
+            "> same\n> same\n\n> same\n> same\n", "same\n\nsame\n\nsame\n", "= s\n\n= s\n\n= s\nx", ">> k: v\n>> k: v\n>> k: v\nstep", "@a{1} @a{1} @a{1} #a #a ~a{1%min} ~a{1%min}",
+            "Heat the #pan{}(cast iron) and the #pot(large) well.\n", "~t{1%min}(stirring often) and ~{2%min}(x9) go", "@a{}(n1) #b{}(n2) #c(n3) @d(n4)",
+        ] {
+            for e in [Extensions::empty().bits(), Extensions::all().bits(), Extensions::COMPAT.bits()] {
+                check_case(ctx, &Case::new("repeated", doc, e, "n/a"));
+                ctx.count("inputs_repeated_pieces");
+            }
+        }
+    }
     // single tokens longer than 64 KiB (comment, word, blanks) with content after them
     if ctx.shard == 0 {
         let long = "A".repeat(70_000);
